@@ -75,6 +75,15 @@ func Equals(point1, other geom.Coord) bool {
 			(math.IsNaN(point1[2]) && math.IsNaN(other[2])))
 }
 
+// diffOfProducts returns a*b - c*d without the catastrophic cancellation of
+// the naive expression (Kahan's algorithm: the rounding error of c*d is
+// recovered with a fused multiply-add and added back).
+func diffOfProducts(a, b, c, d float64) float64 {
+	cd := c * d
+	err := math.FMA(-c, d, cd)
+	return math.FMA(a, b, -cd) + err
+}
+
 // DistanceLineToLine computes the distance between two 3D segments
 func DistanceLineToLine(line1Start, line1End, line2Start, line2End geom.Coord) float64 {
 	/**
@@ -98,7 +107,7 @@ func DistanceLineToLine(line1Start, line1End, line2Start, line2End geom.Coord) f
 	d := VectorDot(line1Start, line1End, line2Start, line1Start)
 	e := VectorDot(line2Start, line2End, line2Start, line1Start)
 
-	denom := a*c - b*b
+	denom := diffOfProducts(a, c, b, b)
 	if math.IsNaN(denom) {
 		panic("Ordinates must not be NaN")
 	}
@@ -117,8 +126,8 @@ func DistanceLineToLine(line1Start, line1End, line2Start, line2End geom.Coord) f
 			t = e / c
 		}
 	} else {
-		s = (b*e - c*d) / denom
-		t = (a*e - b*d) / denom
+		s = diffOfProducts(b, e, c, d) / denom
+		t = diffOfProducts(a, e, b, d) / denom
 	}
 	if s < 0 || s > 1 || t < 0 || t > 1 {
 		// The closest approach of the two lines lies outside at least one
